@@ -207,9 +207,9 @@ package core
 //@   ensures[C05;profile=pure] remaining: (walked.StoppedBecause == Limited || walked.StoppedBecause == BreakpointReached) ==> suffixOf(walked.Remaining, pendings)
 //@   ensures[C05;profile=pure] done: walked.StoppedBecause == Done ==> len(walked.Remaining) == 0 && len(walked.Strides) > 0 && walked.Strides[len(walked.Strides)-1].To == nil
 //@   ensures[C05;profile=pure] reason: walked.StoppedBecause == Done || walked.StoppedBecause == Limited || walked.StoppedBecause == BreakpointReached
-//@   ensures[C05;profile=pure] order: forall j int :: 0 <= j && j < len(walked.Strides) && walked.Strides[j].Consumed != nil ==> 0 <= kappa(j) && kappa(j) < len(pendings) && walked.Strides[j].Consumed == old(pendings[kappa(j)])
-//@   ensures[C05;profile=pure] inorder: (len(walked.Strides) > 0 ==> kappa(0) == 0) && forall j rawint :: 0 <= j && j + 1 < len(walked.Strides) ==> kappa(j + 1) == kappa(j) + cons(j) && cons(j) == (walked.Strides[j].Consumed != nil ? 1 : 0)
-//@   ensures[C05;profile=pure] exactrest: (walked.StoppedBecause == Limited || walked.StoppedBecause == BreakpointReached) ==>
+//@   ensures[C05,group:ord;profile=pure] order: forall j int :: 0 <= j && j < len(walked.Strides) && walked.Strides[j].Consumed != nil ==> 0 <= kappa(j) && kappa(j) < len(pendings) && walked.Strides[j].Consumed == old(pendings[kappa(j)])
+//@   ensures[C05,group:ord;profile=pure] inorder: (len(walked.Strides) > 0 ==> kappa(0) == 0) && forall j rawint :: 0 <= j && j + 1 < len(walked.Strides) ==> kappa(j + 1) == kappa(j) + cons(j) && cons(j) == (walked.Strides[j].Consumed != nil ? 1 : 0)
+//@   ensures[C05,group:ord;profile=pure] exactrest: (walked.StoppedBecause == Limited || walked.StoppedBecause == BreakpointReached) ==>
 //@                          len(pendings) - len(walked.Remaining) == (len(walked.Strides) == 0 ? 0 : kappa(len(walked.Strides) - 1) + (walked.Strides[len(walked.Strides)-1].Consumed != nil ? 1 : 0))
 //@   ensures[C05;profile=pure] limited: walked.StoppedBecause == Limited ==> len(walked.Strides) == limitOf(c)
 //@   loop 0 invariant st != nil && c != nil && c.Limit == limitOf(old(c))
@@ -221,16 +221,28 @@ package core
 //@   loop 0 invariant[C05;profile=pure] nonnil: forall j int :: 0 <= j && j < len(walked.Strides) ==> walked.Strides[j] != nil
 //@   loop 0 invariant[;profile=pure] evs: forall j int :: 0 <= j && j < len(walked.Strides) ==> walked.Strides[j].Events != nil
 //@   loop 0 ghostfn kappa(i) = len(old(pendings)) - len(pendings)
-//@   loop 0 invariant[C05;profile=pure] kfirst: i == 0 ==> len(pendings) == len(old(pendings))
-//@   loop 0 invariant[C05;profile=pure] klast: i > 0 ==> len(old(pendings)) - len(pendings) == kappa(i - 1) + (walked.Strides[i-1].Consumed != nil ? 1 : 0)
+//@   loop 0 invariant[C05,group:ord;profile=pure] kfirst: i == 0 ==> len(pendings) == len(old(pendings))
+//@   loop 0 invariant[C05,group:ord;profile=pure] klast: i > 0 ==> len(old(pendings)) - len(pendings) == kappa(i - 1) + (walked.Strides[i-1].Consumed != nil ? 1 : 0)
 //@   loop 0 ghostfn cons(i - 1) = (i > 0 && walked.Strides[i-1].Consumed != nil) ? 1 : 0
-//@   loop 0 invariant[C05;profile=pure] kstep: forall j rawint :: 0 <= j && j + 1 < i ==> kappa(j + 1) == kappa(j) + cons(j)
-//@   loop 0 invariant[C05;profile=pure] clink: forall j rawint :: 0 <= j && j + 1 < i ==> cons(j) == (walked.Strides[j].Consumed != nil ? 1 : 0)
-//@   loop 0 invariant[C05;profile=pure] kzero: i > 0 ==> kappa(0) == 0
-//@   loop 0 invariant[C05;profile=pure] krange: forall j int :: 0 <= j && j < i && walked.Strides[j].Consumed != nil ==> 0 <= kappa(j) && kappa(j) < len(old(pendings))
+//@   loop 0 invariant[C05,group:ord;profile=pure] kstep: forall j rawint :: 0 <= j && j + 1 < i ==> kappa(j + 1) == kappa(j) + cons(j)
+//@   loop 0 invariant[C05,group:ord;profile=pure] clink: forall j rawint :: 0 <= j && j + 1 < i ==> cons(j) == (walked.Strides[j].Consumed != nil ? 1 : 0)
+//@   loop 0 invariant[C05,group:ord;profile=pure] kzero: i > 0 ==> kappa(0) == 0
+//@   loop 0 invariant[C05,group:ord;profile=pure] krange: forall j int :: 0 <= j && j < i && walked.Strides[j].Consumed != nil ==> 0 <= kappa(j) && kappa(j) < len(old(pendings))
 //@   loop 0 ghostfn hd(i) = len(pendings) > 0 ? 1 : 0
-//@   loop 0 invariant[C05;profile=pure] headat: forall j int :: 0 <= j && j < i && hd(j) == 1 ==> 0 <= kappa(j) && kappa(j) < len(old(pendings))
-//@   loop 0 invariant[C05;profile=pure] order: forall j int :: 0 <= j && j < i && walked.Strides[j].Consumed != nil ==> hd(j) == 1 && walked.Strides[j].Consumed == old(pendings[kappa(j)])
+//@   loop 0 invariant[C05,group:ord;profile=pure] headat: forall j int :: 0 <= j && j < i && hd(j) == 1 ==> 0 <= kappa(j) && kappa(j) < len(old(pendings))
+//@   loop 0 invariant[C05,group:ord;profile=pure] order: forall j int :: 0 <= j && j < i && walked.Strides[j].Consumed != nil ==> hd(j) == 1 && walked.Strides[j].Consumed == old(pendings[kappa(j)])
+// Stride continuity: each step starts from the state the previous one produced
+// (sn(j) = node at the start of step j; tn(j) = node after step j).
+//@   loop 0 ghostfn sn(i) string = st.NodeName
+//@   loop 0 ghostfn tn(i - 1) string = (i > 0 && walked.Strides[i-1].To != nil) ? walked.Strides[i-1].To.NodeName : (i > 0 ? sn(i - 1) : "")
+//@   loop 0 invariant[C05,group:cont;profile=pure] nfirst: i > 0 ==> sn(0) == old(st.NodeName)
+//@   loop 0 invariant[C05,group:cont;profile=pure] nzero: i == 0 ==> st.NodeName == old(st.NodeName)
+//@   loop 0 invariant[C05,group:cont;profile=pure] nlast: i > 0 ==> st.NodeName == (walked.Strides[i-1].To != nil ? walked.Strides[i-1].To.NodeName : sn(i - 1))
+//@   loop 0 invariant[C05,group:cont;profile=pure] nstep: forall j rawint :: 0 <= j && j + 1 < i ==> sn(j + 1) == tn(j)
+//@   loop 0 invariant[C05,group:cont;profile=pure] nlink: forall j int :: 0 <= j && j < i - 1 ==> tn(j) == (walked.Strides[j].To != nil ? walked.Strides[j].To.NodeName : sn(j))
+//@   loop 0 invariant[C05,group:cont;profile=pure] fromat: forall j int :: 0 <= j && j < i ==> walked.Strides[j].From != nil && walked.Strides[j].From.NodeName == sn(j)
+//@   ensures[C05,group:cont;profile=pure] startsat: len(walked.Strides) > 0 ==> walked.Strides[0].From != nil && walked.Strides[0].From.NodeName == old(st.NodeName)
+//@   ensures[C05,group:cont;profile=pure] continuity: (forall j int :: 0 <= j && j < len(walked.Strides) ==> walked.Strides[j].From != nil && walked.Strides[j].From.NodeName == sn(j)) && (forall j rawint :: 0 <= j && j + 1 < len(walked.Strides) ==> sn(j + 1) == (walked.Strides[j].To != nil ? walked.Strides[j].To.NodeName : sn(j)))
 //@   loop 0 decreases c.Limit - i
 
 // UpdatableSpec: the spec pointer is read and written only through sync/atomic,
